@@ -88,9 +88,16 @@ Definition model_ok (c : case) : bool :=
 
 (* the property itself, on the implementation's observations only: after every
    operation the backends that are served or pinned are open and all others are
-   closed exactly once (Spec.handles_okb; no leak is its quiescent instance), the
-   fake backends saw no call after Close and no second Close; over the whole log
+   closed exactly once (Spec.handles_okb; no leak is its quiescent instance), every
+   reference count equals the number of readers pinning that backend, the fake backends saw no call after Close and no second Close; over the whole log
    no use after close and no double close. *)
+(* exactly one release per acquisition: the reference count of every wrapper the harness
+   knows equals the number of held readers that pin its backend *)
+Definition count_pins (b : nat) (pins : list (nat * nat)) : N :=
+  N.of_nat (length (filter (fun p => Nat.eqb (snd p) b) pins)).
+Definition refs_match (ob : obs) : bool :=
+  forallb (fun x => fst (snd x) =? count_pins (fst x) (o_pins ob)) (o_refs ob).
+
 Definition is_shutdown (o : op) : bool := match o with Shutdown => true | _ => false end.
 
 Fixpoint spec_steps (lg : list event) (sh : bool) (l : list (op * obs)) : bool * list event :=
@@ -100,7 +107,7 @@ Fixpoint spec_steps (lg : list event) (sh : bool) (l : list (op * obs)) : bool *
       let lg' := rev (o_events ob) ++ lg in
       let sh' := sh || is_shutdown o in
       let sn := mkSnap lg' (if sh' then None else Some (o_served ob)) (map snd (o_pins ob)) in
-      let here := (negb (o_full ob) || handles_okb sn) && (o_uac ob =? 0) && (o_dc ob =? 0) in
+      let here := (negb (o_full ob) || (handles_okb sn && refs_match ob)) && (o_uac ob =? 0) && (o_dc ob =? 0) in
       let '(rest, lgf) := spec_steps lg' sh' t in
       (here && rest, lgf)
   end.
